@@ -25,7 +25,7 @@ Definition evs (s : st) (l : label) (o : out) : list pev :=
   end.
 
 Definition norst (l : list sframe) : Prop := forall f, In f l -> f <> FRst.
-Definition no_abort (l : label) : Prop := match l with AbortS | AbortR => False | _ => True end.
+Definition no_abort (l : label) : Prop := match l with AbortS | AbortR | KillS => False | _ => True end.
 
 (* the part of the state the conforming, abort-free case lives in *)
 Record Live (s : st) : Prop := {
